@@ -178,7 +178,9 @@ Definition helper_plan (e : env) (h : helper) : nat * nat * list (state -> state
   | HPartialWeightBase combine => (O, 1%nat, map (fun c => set_used_chains e c) combine)
   | HInterference => (O, 1%nat, map (fun p => set_used_chains e [fst p; snd p]) (pairs_lt (nch e)))
   | HFitFractions res nb => (O, nb, set_used_res e res [] :: ff_pair_steps e res)
-  | HAppendInt res => (1%nat, 1%nat, ff_pair_steps e res)
+  | HAppendInt res => (O, 1%nat, set_used_res e res [] :: ff_pair_steps e res)  (* since /repo fix: the total refers to the listed
+                                                                                   resonances; before, it was evaluated under the selection
+                                                                                   active at the call: plan (1, 1, ff_pair_steps e res) *)
   end.
 
 Inductive prog :=
